@@ -1,0 +1,26 @@
+//go:build verif
+
+package verifhook
+
+import "sync/atomic"
+
+// Enabled reports whether instrumentation points are compiled in.
+const Enabled = true
+
+var handler atomic.Pointer[func(site string)]
+
+// Point marks an instrumentation site and invokes the installed handler, if any.
+func Point(site string) {
+	if h := handler.Load(); h != nil {
+		(*h)(site)
+	}
+}
+
+// Set installs a handler invoked at every Point (nil removes it).
+func Set(h func(site string)) {
+	if h == nil {
+		handler.Store(nil)
+		return
+	}
+	handler.Store(&h)
+}
